@@ -502,4 +502,130 @@ theorem parse_layout_tail (stmts : List BStmt) (hv : ∀ st ∈ stmts, validStmt
   refine lexes_render_tail tail ht l g0 hg0 (fun p hp => benchToks_ok stmts hv p.1 ?_) hlay
   rw [← hl]; exact List.mem_map_of_mem hp
 
+/-! ## token classes: every spelling of the interface keyword (audit finding 10(a)) -/
+
+def stmtTK (kw : List Char) : BStmt → List Tok
+  | .intf ns => .name kw :: paramT ns
+  | .gate n k d => stmtT (.gate n k d)
+
+theorem stmtTGK_map (kw e : List Char) (st : BStmt) : (stmtTGK kw e st).map (·.1) = stmtTK kw st := by
+  cases st with
+  | intf ns => simp only [stmtTGK, List.map_cons, stmtTK, paramsTG_map]
+  | gate n k d => simp only [stmtTGK, stmtTK, stmtTG_map]
+
+theorem benchToksK_nil : benchToksK [] = [] := rfl
+
+theorem benchToksK_cons (p : List Char × BStmt) (rest : List (List Char × BStmt)) :
+    benchToksK (p :: rest) = stmtTK p.1 p.2 ++ benchToksK rest := by
+  simp only [benchToksK, List.flatMap_cons, stmtTGK_map]
+
+/-- the canonical stream is the one with every keyword spelled `INPUT` -/
+theorem benchToksK_canon (stmts : List BStmt) : benchToksK (stmts.map fun st => (kwInput, st)) = benchToks stmts := by
+  induction stmts with
+  | nil => rfl
+  | cons st rest ih =>
+    rw [List.map_cons, benchToksK_cons, benchToks_cons, ih]
+    cases st <;> rfl
+
+/-- `isKw` is exactly the four literals of the grammar -/
+theorem isKw_iff (n : List Char) :
+    isKw n = true ↔ n = "INPUT".toList ∨ n = "input".toList ∨ n = "OUTPUT".toList ∨ n = "output".toList := by
+  simp only [isKw, Bool.or_eq_true, beq_iff_eq, or_assoc]
+  rfl
+
+theorem tokOK_kw (kw : List Char) (h : isKw kw = true) : tokOK (.name kw) = true := by
+  rcases (isKw_iff kw).mp h with h | h | h | h <;> subst h <;> decide
+
+theorem stmtTK_length_gt (kw : List Char) (st : BStmt) :
+    (match st with | .intf ns => ns.length | .gate _ _ d => d.length) < (stmtTK kw st).length := by
+  cases st with
+  | intf ns => simp only [stmtTK, List.length_cons, paramT_length]; split <;> omega
+  | gate n k d => exact stmtT_length_gt (.gate n k d)
+
+/-- a text that lexes to the token stream of `ks` — every interface keyword in its own spelling — parses to the statements -/
+theorem pStmts_okK (ks : List (List Char × BStmt)) : ∀ (f : Nat) (s : List Char),
+    kwsOK ks = true → (∀ p ∈ ks, validStmt p.2 = true) → Lexes s (benchToksK ks) → (benchToksK ks).length < f →
+    pStmts f s = some (ks.map (·.2)) := by
+  induction ks with
+  | nil =>
+    intro f s _ _ h hf
+    cases f with
+    | zero => omega
+    | succ f => simp only [pStmts, Lexes.nil_inv h, List.map_nil]
+  | cons p rest ih =>
+    intro f s hk hv h hf
+    rw [benchToksK_cons] at h hf
+    obtain ⟨kw, st⟩ := p
+    have hlen := stmtTK_length_gt kw st
+    simp only [kwsOK, List.all_cons, Bool.and_eq_true] at hk
+    cases f with
+    | zero => omega
+    | succ f =>
+      have hrest : ∀ q ∈ rest, validStmt q.2 = true := fun x hx => hv x (List.mem_cons_of_mem _ hx)
+      have hst := hv (kw, st) List.mem_cons_self
+      cases st with
+      | intf ns =>
+        simp only [stmtTK, List.cons_append] at h
+        obtain ⟨r1, hn1, h1⟩ := Lexes.cons_inv h
+        obtain ⟨r2, hp, h2⟩ := pParams_ok ns f r1 _ h1 (by simp only [List.length_append] at hf hlen ⊢; omega)
+        have := ih f r2 hk.2 hrest h2 (by simp only [List.length_append] at hf; omega)
+        have hkw : isKw kw = true := hk.1
+        simp only [pStmts, hn1, hkw, if_true, hp, this, List.map_cons]
+      | gate n k d =>
+        simp only [stmtTK, stmtT, List.cons_append] at h
+        obtain ⟨r1, hn1, h1⟩ := Lexes.cons_inv h
+        obtain ⟨r2, hn2, h2⟩ := Lexes.cons_inv h1
+        obtain ⟨r3, hn3, h3⟩ := Lexes.cons_inv h2
+        obtain ⟨r4, hp, h4⟩ := pParams_ok d f r3 _ h3 (by simp only [List.length_append] at hf hlen ⊢; omega)
+        have := ih f r4 hk.2 hrest h4 (by simp only [List.length_append] at hf; omega)
+        have hkn : isKw n.toList = false := by
+          simp only [validStmt, Bool.and_eq_true, Bool.not_eq_true'] at hst
+          exact hst.1.1.2
+        simp only [pStmts, hn1, hkn, hn2, hn3, hp, this, String.ofList_toList, List.map_cons]
+        simp
+
+theorem stmtTK_ok (kw : List Char) (st : BStmt) (hk : kwOK (kw, st) = true) (h : validStmt st = true) :
+    ∀ t ∈ stmtTK kw st, tokOK t = true := by
+  cases st with
+  | intf ns =>
+    have hk : isKw kw = true := hk
+    intro t ht
+    simp only [stmtTK, List.mem_cons] at ht
+    rcases ht with ht | ht
+    · subst ht; exact tokOK_kw kw hk
+    · exact paramT_ok ns h t ht
+  | gate n k d => exact stmtT_ok (.gate n k d) h
+
+theorem benchToksK_ok (ks : List (List Char × BStmt)) (hk : kwsOK ks = true) (hv : ∀ p ∈ ks, validStmt p.2 = true) :
+    ∀ t ∈ benchToksK ks, tokOK t = true := by
+  induction ks with
+  | nil => intro t ht; simp [benchToksK_nil] at ht
+  | cons p rest ih =>
+    simp only [kwsOK, List.all_cons, Bool.and_eq_true] at hk
+    intro t ht
+    rw [benchToksK_cons, List.mem_append] at ht
+    rcases ht with ht | ht
+    · exact stmtTK_ok p.1 p.2 hk.1 (hv p List.mem_cons_self) t ht
+    · exact ih hk.2 (fun x hx => hv x (List.mem_cons_of_mem _ hx)) t ht
+
+/-- every layout of a token stream in which each interface statement is spelled with ANY of the four keyword literals parses to
+the statement list; an unclosed `#` comment may follow -/
+theorem parse_layout_kw (ks : List (List Char × BStmt)) (hk : kwsOK ks = true) (hv : ∀ p ∈ ks, validStmt p.2 = true)
+    (g0 tail : List Char) (l : List (Tok × List Char)) (hl : l.map (·.1) = benchToksK ks) (hg0 : gapB .ws g0 = true)
+    (hlay : layoutOK l = true) (ht : tailOK tail = true) :
+    parseChars (g0 ++ (renderTG l ++ tail)) = some (ks.map (·.2)) := by
+  have hlex : Lexes (g0 ++ (renderTG l ++ tail)) (benchToksK ks) := by
+    rw [← hl]
+    refine lexes_render_tail tail ht l g0 hg0 (fun p hp => benchToksK_ok ks hk hv p.1 ?_) hlay
+    rw [← hl]; exact List.mem_map_of_mem hp
+  exact pStmts_okK ks _ _ hk hv hlex (by have := hlex.length_le; omega)
+
+/-- the class is exact: a statement-leading NAME that is NOT one of the four literals followed by `(` is a syntax error
+(`Input(a)`, `OutPut(z)`: the name is read as an assignment target and `=` must follow) -/
+theorem not_kw_not_interface (n : List Char) (hn : isKw n = false) (s : List Char) (ts : List Tok)
+    (h : Lexes s (.name n :: .lpar :: ts)) : parseChars s = none := by
+  obtain ⟨r1, hn1, h1⟩ := Lexes.cons_inv h
+  obtain ⟨r2, hn2, _⟩ := Lexes.cons_inv h1
+  simp only [parseChars, pStmts, hn1, hn, hn2, Bool.false_eq_true, if_false]
+
 end KV.BenchText
